@@ -21,6 +21,7 @@ Mono = Tuple[Tuple[str, int], ...]
 # registry of structured atoms so that substitution / shifting can rebuild them
 #   atom -> ("call", fname, (Rat, ...)) | ("dot", Rat elem, Rat|None length) | ("sqrt", Rat)
 ATOM_DEF: Dict[str, tuple] = {}
+ITE_COND: Dict[str, object] = {}  # '[<cond key>]' atom of an undecided conditional expression -> the condition object
 
 COMMUTATIVE_FUNCS = {"max", "min"}
 
